@@ -7,6 +7,7 @@ CONSTANTS
   CutPoints = {2}
   MaxOps = 5
   Splits = FALSE
+  S0Kinds = {"given", "init"}
   HandOvers = {}
   Emit = TRUE
 INVARIANTS Causal PureLabels SegmentLabels
